@@ -21,7 +21,7 @@ type rnode struct {
 	mtimeOK  bool // false: implementation may or may not have bumped it
 	data     []byte
 	children map[string]*rnode
-	dirty    int // open written handles whose content is not yet flushed
+	dirty    int  // open written handles whose content is not yet flushed
 	unknown  bool // content no longer determined by the model (write at an unspecified cursor)
 }
 
@@ -391,7 +391,7 @@ func (r *RefFS) Apply(o Op) ExpRes {
 		if cls != "" {
 			return ExpRes{Class: failClass(cls)}
 		}
-		n.mtime = o.T2 * 1e9
+		n.mtime = o.T2*1e9 + int64(o.N)
 		n.mtimeOK = true
 		return ExpRes{Class: "ok"}
 	case "stat":
